@@ -3,6 +3,7 @@ package props
 import (
 	"bytes"
 	"fmt"
+	"math"
 	"strings"
 
 	"github.com/wolimst/lib-secs2-hsms-go/pkg/ast"
@@ -174,6 +175,10 @@ func opsFor(r rmsg) []prodOp {
 		for _, b := range bufs {
 			ops = append(ops, prodOp{kind: "sess", id: id, buf: b, desc: fmt.Sprintf("SetSessionIDAndSystemBytes(%d, %x)", id, b)})
 		}
+	}
+	// ids whose low 16/32 bits are in range (a narrowed field would accept them), with the regular 4 system bytes
+	for _, id := range []int{65541, 1 << 31, 1<<32 - 1, 1 << 32, 1<<32 + 5, 3<<32 + 300, math.MaxInt64, math.MinInt64, -1 << 32, -1<<32 - 1} {
+		ops = append(ops, prodOp{kind: "sess", id: id, buf: bufs[3], desc: fmt.Sprintf("SetSessionIDAndSystemBytes(%d, %x)", id, bufs[3])})
 	}
 	// fills: every sub-assignment of the item's variables, with unknown keys, and one rejected value
 	var slots []slot
